@@ -43,6 +43,8 @@ func runC13(p *Prog, r *Report) {
 	ruleKeyFields(p, r, keyFieldsCfg{pkg: "harfbuzz", keyType: "shapePlan", initRecv: "shapePlan", initFn: "init", eqRecv: "shapePlan", eqFn: "equal",
 		lookupRecv: "Buffer", lookup: "newShapePlanCached", cacheRecv: "Buffer", cacheFld: "planCache"})
 	ruleKeyProjection(p, r, keyProjCfg{pkg: "shaping", recv: "HarfbuzzShaper", fn: "Shape", putPkg: "shaping", putRecv: "fontLRU", putFn: "Put", keyArg: 0, valueArg: 1})
+	r.Explain = append(r.Explain, "R-KEY/owned: the shape plan stored in Buffer.planCache is initialised by shapePlan.init in copy mode, so its key fields do not alias slices the caller may overwrite.")
+	ruleCacheOwned(p, r, "harfbuzz", "Buffer", "newShapePlanCached", "Buffer", "planCache", "shapePlan", "init", 1)
 	ruleInv(p, r, invFaceExtents())
 	r.Explain = append(r.Explain, "R-STATE: with P-FX (per-function exposed-read / must-write sets over struct fields, fixpoint over the VTA call graph), every field of the state-holding types of each reusable object that an entry method may read before writing it is classified with a reason; continuation methods may also read what the required initialiser writes on all its paths.")
 	fx := NewFX(p)
@@ -102,6 +104,14 @@ func runC14(p *Prog, r *Report) {
 	r.Explain = append(r.Explain, "R-INV on FontMap: every writer of a field read by ResolveFace's miss path (other than the key components query/script) clears the rune LRU, and every writer of a field read by buildCandidates resets built, on all paths, up to the exported API.")
 	ruleInv(p, r, invFontMapLRU())
 	ruleInv(p, r, invFontMapCandidates())
+	r.Explain = append(r.Explain,
+		"R-KEY/hash: the rune LRU key hashes the query families; runeLRU.Get returns a hit only on the equal edge of an exact comparison of those families.",
+		"R-STEPS: on ResolveFace's miss path buildCandidates runs first and the four documented searches (exact families, fallbacks, manual fonts, script coverage) occur in that order on every path, each returning the face it finds before a later step; every path of buildCandidates that marks the candidates as built has run the substitution pass, the user-font pass and the aspect narrowing.")
+	ruleKeyHash(p, r, "fontscan", "runeLRU", "KeyFor", "Get")
+	ruleResolveOrder(p, r)
+	ruleBuildCandidates(p, r)
+	r.Assumptions = append(r.Assumptions, "hash/maphash is a hash (lossy); family substitution scoring and footprint coverage contents are not analysed")
+	r.NotDecided = append(r.NotDecided, "non-nil result for a non-empty map", "that coverage contains the rune is what Contains computes", "family substitution scoring order")
 }
 
 func controlsC13(cp *Prog, r *Report) {
